@@ -289,8 +289,9 @@ def run(ctx, host=None):
     # a key is handed back only if the new loose file really was published (shared with C09.R1)
     from .c09 import publish_handlers
     publish_handlers(ctx, chk, R2)
-    from .c09 import loose_add_delegation
+    from .c09 import fresh_stream_handover, loose_add_delegation
     loose_add_delegation(ctx, chk, R2)
+    fresh_stream_handover(ctx, chk, R2)
     # direct path: one key per stream (IterMachine of C09.R4, reported here as C01.R2)
     q = 'container:Container.add_streamed_objects_to_pack'
     fnq = prog.fn(q)
